@@ -1573,9 +1573,9 @@ class Parameter(_ParameterBase):
             if ref is not None:
                 self.owner.param._update_ref(name, ref)
             elif name in refs and not syncing:
-                del refs[name]
-                if name in obj._param__private.async_refs:
-                    obj._param__private.async_refs.pop(name).cancel()
+                # a plain value ends the link for good, including the
+                # watchers kept on its sources
+                self.owner.param._update_ref(name, None)
             if is_async or val is Undefined:
                 return
 
@@ -2175,6 +2175,8 @@ class Parameters:
             dep_obj.param.unwatch(watcher)
         self_.self._param__private.ref_watchers = []
         refs = dict(self_.self._param__private.refs, **{name: ref})
+        if ref is None:
+            del refs[name]
         # (recursively for nested_refs parameters, as at construction)
         deps = {name: resolve_ref(ref, self_[name].nested_refs) for name, ref in refs.items()}
         self_._setup_refs(deps)
